@@ -664,7 +664,18 @@ class Evaluator:
                 if bb not in self.stop[2]:
                     if fn.blocks[bb]["term"]["t"] == "unreachable":
                         return ("unreachable",)
-                    return ("exit", bb)
+                    # leaving the loop: when the way out runs straight to the function's return, record the returned value too
+                    saved = self.stop
+                    self.stop = None
+                    val = None
+                    try:
+                        if bb != normal_exit(fn, saved[1], saved[2]):
+                            val = self._run(fn, bb, dict(env), {saved[1]: 1}, depth)
+                    except Undecided:
+                        val = None
+                    finally:
+                        self.stop = saved
+                    return ("exit", bb, val)
             if self.summarize_loops and visits.get(bb, 0) == 0:
                 lp = fn.loops()
                 if bb in lp and bb not in self.no_skip and not (self.stop is not None and fn.path == self.stop[0] and bb == self.stop[1]):
@@ -1322,6 +1333,10 @@ def _m_dbg(ev, a, t, d):
     return ("dbg", a[0])
 
 
+def _m_discriminant_value(ev, a, t, d):
+    return ev.discriminant(a[0])
+
+
 def _m_iop(name):
     def f(ev, a, t, d):
         return ("iop", name, a[0], a[1] if len(a) > 1 else UNIT)
@@ -1357,6 +1372,7 @@ DEFAULT_MODELS = {
     "alloc::vec::Vec::<T, A>::as_mut_slice": _ident,
     "core::array::<impl [T; N]>::as_slice": _ident,
     "core::hint::must_use": _ident,
+    "core::intrinsics::discriminant_value": _m_discriminant_value,
     "core::fmt::Arguments::<'a>::new": _m_fmt_args_new,
     "core::fmt::Arguments::<'a>::from_str": _m_fmt_from_str,
     "alloc::fmt::format": _m_format,
